@@ -157,9 +157,10 @@ def ownership_fault(c):
     if os.path.isdir(keydir):
         rows.append({"e": "sink", "sink": "keydir", "where": "keys (chown fails)", "canary": False, "phase": "chownfail",
                      "mode": "%04o" % stat.S_IMODE(os.stat(keydir).st_mode)})
-    c.extra["chown_fault"] = {"injected_on_key_dir": injected, "key_files_created": sum(1 for r in rows if r.get("op") == "create")}
+    c.extra["chown_fault"] = {"injected_on_key_dir": injected, "key_files_created": sum(1 for r in rows if r.get("op") == "create"),
+                              "key_file_present": os.path.isdir(keydir) and any(f.endswith(".key") for f in os.listdir(keydir))}
     shutil.rmtree(d, ignore_errors=True)
-    if not any(r.get("op") == "create" for r in rows):
+    if not any(r.get("op") == "create" for r in rows) and not c.extra["chown_fault"].get("key_file_present"):
         raise util.ToolError("chown-fault run: no key file was created (rc=%s)" % p.returncode)
     return [{"e": "fs", "op": "mkdir", "mode": "default"}] + rows if not any(r.get("op") == "mkdir" for r in rows) else rows
 
@@ -183,11 +184,39 @@ def busy_pool(c):
     if os.path.isdir(keydir):
         rows.append({"e": "sink", "sink": "keydir", "where": "keys (blocking pool busy)", "canary": False, "phase": "busypool",
                      "mode": "%04o" % stat.S_IMODE(os.stat(keydir).st_mode)})
-    c.extra["busy_pool"] = {"key_files_created": sum(1 for r in rows if r.get("op") == "create")}
+    present = os.path.isdir(keydir) and any(f.endswith(".key") for f in os.listdir(keydir))
+    c.extra["busy_pool"] = {"key_files_created": sum(1 for r in rows if r.get("op") == "create"), "key_file_present": present}
     shutil.rmtree(d, ignore_errors=True)
-    if not any(r.get("op") == "create" for r in rows):
+    if not any(r.get("op") == "create" for r in rows) and not present:
         raise util.ToolError("busy-pool run: no key file was created")
     return [{"e": "fs", "op": "mkdir", "mode": "default"}] + rows if not any(r.get("op") == "mkdir" for r in rows) else rows
+
+
+def preexisting_dir(c):
+    """start-up dimension: the key folder is already there when the service starts, with the permissions anybody may have
+    given it (0755, left by a package script or an earlier version).  It is restricted before the first key file all the same."""
+    name = "c12_preexist"
+    kdir = os.path.join(util.RUNDIR, "c12_preexist_keys")
+    shutil.rmtree(kdir, ignore_errors=True)
+    os.makedirs(kdir)
+    os.chmod(kdir, 0o755)
+    steps = [plan("GET /secure-channel/status", 200, status_doc(None)),
+             plan("POST /secure-channel/key", 200, key_doc(G[0], CAN["ok1"])),
+             plan("POST /secure-channel/key/*", 200, ""),
+             {"op": "start_key_keeper", "interval_ms": 40}, {"op": "sleep", "ms": 1200}, {"op": "key_state", "tag": "preexist"}]
+    ev, d, _ = rig.run_rig({"steps": steps, "drain_ms": 100, "agent_config": {"latchKeyFolder": kdir}}, name, timeout=180,
+                           strace="mkdir,mkdirat,chmod,fchmod,fchmodat,openat,creat,rename,renameat,renameat2")
+    rows = fs_rows_of(os.path.join(d, "strace.log"), kdir)
+    have_key = any(f.endswith(".key") for f in os.listdir(kdir))
+    rows.append({"e": "sink", "sink": "keydir", "where": "keys (found at start with mode 0755)", "canary": False, "phase": "preexist",
+                 "mode": "%04o" % stat.S_IMODE(os.stat(kdir).st_mode)})
+    c.extra["preexisting_key_dir"] = {"mode_at_end": rows[-1]["mode"], "key_file": have_key}
+    shutil.rmtree(d, ignore_errors=True)
+    shutil.rmtree(kdir, ignore_errors=True)
+    if not have_key:
+        raise util.ToolError("pre-existing-folder run: no key file was stored")
+    # the folder was made by somebody else: a (re-)created, unrestricted directory as far as the trace is concerned
+    return [{"e": "fs", "op": "mkdir", "mode": "default"}] + [r for r in rows if r.get("op") != "mkdir"]
 
 
 def after_provision(c):
@@ -414,7 +443,7 @@ def run(c):
         if r_["canary"] and r_["sink"] != "keyfile":
             leaks.setdefault((r_["sink"], ("key material",)), []).append((r_["where"], ""))
     rows += krows
-    allrows = fs_rows + rows + ownership_fault(c) + busy_pool(c) + after_provision(c)
+    allrows = fs_rows + rows + ownership_fault(c) + busy_pool(c) + after_provision(c) + preexisting_dir(c)
     remaining = allrows
     c.traces_validated += 1
     for _ in range(10):
